@@ -132,6 +132,17 @@ func catalogue() []concOp {
 				}}
 			}})
 		}
+		// a write with options of the caller's own: they belong to that call alone
+		ops = append(ops, concOp{fmt.Sprintf("write-ttml-indent:list%d", i), func() concCall {
+			s := buildW(wc, rand.New(rand.NewSource(int64(i))))
+			return concCall{label: fmt.Sprintf("write-ttml-indent:list%d", i), run: func() string {
+				var b bytes.Buffer
+				if err := s.WriteToTTML(&b, astisub.WriteToTTMLWithIndentOption("\t")); err != nil {
+					return "ERR"
+				}
+				return dig(b.Bytes())
+			}}
+		}})
 		ops = append(ops, concOp{fmt.Sprintf("transform:list%d", i), func() concCall {
 			s := buildW(wc, rand.New(rand.NewSource(int64(i))))
 			s2 := buildW(wc, rand.New(rand.NewSource(int64(i+1))))
